@@ -7,10 +7,9 @@ from harness.gen import c07gen as G
 from harness.impl import c07impl as I
 
 IMPORTS = "From Ford Require Import Base.Str Sem.Scope Corr.C07."
-THEOREMS = ["C07_types_and_procedures", "C07_partial", "C07_model_characterised", "C07_refuted_abs_over_proc",
-            "C07_refuted_sub_shadow", "C07_statement_refuted", "C07_fixed_proc_shadow", "C07_fixed_sibling_leak",
-            "C07_unresolved_stays_text", "C07_example_hypotheses", "C07_example_submodules"]
-REGION_KEYS = {1: "abstract-interface-does-not-shadow-host-procedure", 16: "submodule-declaration-does-not-shadow-host"}
+THEOREMS = ["C07_full", "C07_fixed_abs_over_proc", "C07_fixed_sub_shadow", "C07_fixed_proc_shadow",
+            "C07_fixed_sibling_leak", "C07_unresolved_stays_text", "C07_example_hypotheses",
+            "C07_example_submodules", "C07_example_hiding"]
 
 
 def coq_slot(d):
@@ -100,9 +99,35 @@ def witness_local_overrides_host():
     return {"units": [sc("m", "module", types=[ty("t")], vars=[var("z", "type", "t")], procs=[a, b])], "submodules": []}
 
 
+def abs_hides_binding_target():
+    """module m: subroutines x, z.  submodule (m) s1: abstract interface x; a type with bindings => x (x is not
+    a procedure in s1: the target stays text) and => z; procedure(x), procedure(z) variables"""
+    m = sc("m", "module", procs=[sc("x", "subroutine"), sc("z", "subroutine")])
+    s1 = sc("s1", "submodule", absints=[sc("x", "absbody")],
+            types=[ty("t", binds=[{"name": "b", "deferred": False, "proto": None, "targets": ["x"]},
+                                  {"name": "c", "deferred": False, "proto": None, "targets": ["z"]}])],
+            vars=[var("p", "proc", "x"), var("r", "proc", "z")])
+    s1.update({"ancestor": "m", "parent": None})
+    return {"units": [m], "submodules": [s1]}
+
+
+def imported_abs_hides_host_proc():
+    """module lib: abstract interfaces x, w.  module m: subroutines x, y; subroutine a: use lib, only: x;
+    procedure(x) (lib's abstract interface), procedure(y) (m's), procedure(w) (not imported) -- and an internal
+    procedure of a sees the same"""
+    lib = sc("lib", "module", absints=[sc("x", "absbody"), sc("w", "absbody")])
+    inner = sc("inner", "subroutine", vars=[var("p2", "proc", "x"), var("q2", "proc", "y")])
+    a = sc("a", "subroutine", uses=[{"target": "lib", "only": [["x", "x"]]}], procs=[inner],
+           vars=[var("p", "proc", "x"), var("q", "proc", "y"), var("r", "proc", "w")])
+    m = sc("m", "module", procs=[sc("x", "subroutine"), sc("y", "subroutine"), a], vars=[var("pm", "proc", "x")])
+    return {"units": [lib, m], "submodules": []}
+
+
 def fixed_programs():
     out = [("witness:proc_shadow", witness_proc_shadow()), ("witness:sibling_leak", witness_sibling_leak()),
            ("witness:abs_over_proc", witness_abs_over_proc()), ("witness:sub_shadow", witness_sub_shadow()),
+           ("fixed:abs_hides_binding_target", abs_hides_binding_target()),
+           ("fixed:imported_abs_hides_host_proc", imported_abs_hides_host_proc()),
            ("fixed:sub_chain", witness_sub_chain()),
            ("witness:local_overrides_host", witness_local_overrides_host())]
     # every slot kind once, unique names, two modules, an external procedure, undeclared names
@@ -173,47 +198,37 @@ class Runner:
     def judge(self):
         chk = self.chk
         stats = {"units": len(self.cases), "slots": sum(len(c[4]) for c in self.cases), "model_mismatch": 0,
-                 "spec_violation_in_region": 0, "spec_violation_outside": 0, "regions": {}, "not_legal_spec_skipped": 0,
+                 "spec_violation": 0, "model_differs_from_spec": 0, "not_legal_spec_skipped": 0,
                  "resolved_slots": sum(1 for c in self.cases for o in c[4] if o[2] is not None)}
         terms = [coq_case(p, u, obs) for _, p, u, _, obs in self.cases]
         res = chk.coq_judge(IMPORTS, "case", "judge", terms, shard=max(8, len(terms) // 16 + 1))
         if res is None:
             return stats
         chk.traces += len(terms)
-        stats["region_free_agreeing_with_spec"] = len(terms) - len(res)
+        stats["agreeing_with_spec"] = len(terms) - len(res)
         for j, code in sorted(res.items(), key=lambda jc: (not (jc[1] & 2), jc[0])):
             label, prog, u, files, obs = self.cases[j]
-            region = ((code >> 2) & 1) | (((code >> 6) & 1) << 4)
             deviates = (code >> 5) & 1
             if (code >> 3) & 1:
                 stats["not_legal_spec_skipped"] += 1
             if (code >> 4) & 1:
                 chk.violation("broken-correspondence", {"what": "projection is not a well-formed event list",
                                                         "label": label, "unit": u["name"], "files": files}, False)
-            for bit, key in REGION_KEYS.items():
-                if region & bit:
-                    stats["regions"][key] = stats["regions"].get(key, 0) + 1
             payload = {"label": label, "unit": u["name"], "prog": prog, "files": files, "code": code,
                        "observed": [[p, list(d), e] for p, d, e in obs],
                        "meaning": "bit0 model!=impl, bit1 impl differs from the Spec on a slot where the model agrees with "
-                                  "the Spec, bits>=2: 1 region (an inner abstract interface hides an outer procedure), "
-                                  "2 not a legal unit (Spec not asked), 4 projection not well formed, 8 impl differs "
-                                  "from the Spec somewhere, 16 region (a submodule's own declaration named like an entity "
-                                  "of its host)"}
+                                  "the Spec, bits>=2: 2 not a legal unit (Spec not asked), 4 projection not well formed, "
+                                  "8 impl differs from the Spec somewhere"}
             if code & 2:
                 chk.disagreements += 1
-                stats["spec_violation_outside"] += 1
+                stats["spec_violation"] += 1
                 chk.violation("failing-input", payload, True)
             elif deviates:
+                # implementation and model both differ from the Spec on a legal unit: no recorded defect
+                # is left that could explain it (C07_full)
                 chk.disagreements += 1
-                if region == 0:
-                    stats["spec_violation_outside"] += 1
-                    chk.violation("failing-input", payload, True)
-                else:
-                    stats["spec_violation_in_region"] += 1
-                    for bit, key in REGION_KEYS.items():
-                        if region & bit and not chk.known(key, False):
-                            chk.violation("failing-input", payload, True)
+                stats["model_differs_from_spec"] += 1
+                chk.violation("failing-input", payload, True)
             if code & 1:
                 stats["model_mismatch"] += 1
                 if not code & 2:
@@ -342,9 +357,16 @@ def replay_findings(chk):
         chk.violation("failing-input", {"what": "a type declared inside one procedure is visible in a sibling or in the host",
                                         "slots": [e1, e2], "prog": p, "files": G.render_files(p)}, True)
     e = slot_of(witness_abs_over_proc(), "m", ["m", "a"], ("SVar", "p"))
-    chk.known("abstract-interface-does-not-shadow-host-procedure", e == ["m", "x"])
+    if e != ["m", "a", "x"]:
+        chk.violation("failing-input", {"what": "procedure(x) where x is an abstract interface of the scope and also a "
+                                                "procedure of the host does not resolve to the abstract interface",
+                                        "slot": e, "prog": witness_abs_over_proc(),
+                                        "files": G.render_files(witness_abs_over_proc())}, True)
     e = slot_of(witness_sub_shadow(), "s1", ["s1"], ("SVar", "v"))
-    chk.known("submodule-declaration-does-not-shadow-host", e == ["m", "t"])
+    if e != ["s1", "t"]:
+        chk.violation("failing-input", {"what": "a type declared in a submodule does not hide the type of the same name "
+                                                "of its ancestor module", "slot": e, "prog": witness_sub_shadow(),
+                                        "files": G.render_files(witness_sub_shadow())}, True)
     prog = witness_unresolved_binding()
     _, _, problems = I.html_check(prog, G.render_files(prog))
     # repaired in /repo 1b07a9c (fixed: entry in known_findings.d/C07.json): reported again if it returns
